@@ -77,6 +77,34 @@ class C19(Prop):
                     yield a
                     yield b
 
+        # long lanes dominated by one repeated value (the worst case of the selection's recursion depth: every
+        # partition around the repeated value peels off one element) seen forward, through a reversed view and
+        # stepped: logically equal lanes and permutations of them must give the same quantiles
+        for rep in range(4 if tier == "quick" else 60):
+            g += 1
+            n = rng.range(66, 140)
+            et = rng.choice(["i32", "i64", "n64"])
+            common = rng.range(-5, 5)
+            vals = [common] * n
+            for _ in range(rng.range(2, 8)):
+                vals[rng.below(n)] = common + rng.range(-3, 9)
+            if et == "n64":
+                vals = [0.25 * v for v in vals]
+            tail = [k / float(n - 1) for k in range(n - 8, n)]
+            qs = sorted(set([0.0, 0.01, 0.5, 1.0] + tail + [1.0 / (n - 1), 2.5 / (n - 1)]))
+            strat = rng.below(5)
+            rv = list(reversed(vals))
+            sh = list(vals)
+            rng.shuffle(sh)
+            variants = [(vals, lay1(n)), (vals, lay1(n, -1, 0, 0)), (rv, lay1(n, -1, 1, 0)), (sh, lay1(n, 2, 0, 1)), (sh, lay1(n, -1, 0, 2))]
+            for pi, (vv, ll) in enumerate(variants):
+                c = mk_q_case("quantiles1", et, strat, [n], 0, vv, qs, ll, ("R",))
+                c.grp, c.role = "g%dp" % g, ("base" if pi == 0 else "perm")
+                yield c
+            c = mk_q_case("quantiles1", et, strat, [n], 0, vals, qs, lay1(n, -1, 0, 0), ("P", rng.below(3)))
+            c.grp, c.role = "g%d" % g, "base"
+            yield c
+
     def parse(self, case):
         parse_q(case)
 
